@@ -70,6 +70,8 @@ def run_lazy_case(case):
                     kw[k] = case[k]
             if case["func"] in ("nanquantile",):
                 kw["finalize_kwargs"] = {"q": 0.5}
+            if case.get("variant") == "sort_false_min_count":
+                kw.update(sort=False, min_count=2, fill_value=-1 if "arg" in case["func"] else np.nan)
             res, grp = groupby_reduce(arr, byy, func=case["func"], **kw)
         elif case["api"] == "scan":
             res, grp = groupby_scan(arr, byy, func=case["func"]), None
@@ -105,11 +107,15 @@ def run_lazy_case(case):
 REDUCTIONS = ["sum", "nanmean", "count", "nanmax", "var", "argmax", "nanfirst", "first", "nanquantile", "prod"]
 LAYOUTS = [([0, 1, 0, 1, 2, 2, 0, 1], [2, 2, 2, 2]), ([0, 0, 1, 1, 2, 2, 2, 2], [2, 2, 4]), ([1, 0, 2, 0, 1, 2], [6]), ([0, 1, 0, 1, 0, 1], [1] * 6),
            ([0, -1, 1, -1, 0, 1], [3, 3]), ([2, 0, 2, 0, 1, 1, 0, 2], [3, 3, 2]),
-           ([-1, -1, -1, -1], [2, 2])]     # every label missing: no group at all, still lazy
+           ([-1, -1, -1, -1], [2, 2]),     # every label missing: no group at all, still lazy
+           ([0, 1, 2, 3, 4, 5], [2, 2, 2]), ([3, 1, 0, 2], [1, 3]),          # every group has a single member
+           ([5, 3, 5, 1, 3, 5, 4, 4, 0], [3, 3, 3])]                         # appearance order != sorted order, groups of 1-3 members
 
 
-def build(api, func, method, engine, reindex, by_dask, expected, layout):
+def build(api, func, method, engine, reindex, by_dask, expected, layout, variant=None):
     codes, chunks = LAYOUTS[layout]
+    if variant and not (api == "reduce" and by_dask and not expected and func not in ("first", "nanquantile")):
+        return None
     if expected and max(codes) < 0:
         return None
     if api == "scan":
@@ -126,7 +132,7 @@ def build(api, func, method, engine, reindex, by_dask, expected, layout):
     if method == "blockwise" and not confined(codes, chunks):
         return None     # explicit blockwise only on inputs meeting its precondition
     return {"api": api, "func": func, "method": method, "engine": engine, "reindex": reindex, "by_dask": by_dask, "expected": expected,
-            "codes": codes, "chunks": chunks}
+            "codes": codes, "chunks": chunks, "variant": variant}
 
 
 def run(ctx):
@@ -136,8 +142,15 @@ def run(ctx):
         raise MachineryFailure(f"Lifecycle: {res.violated} violated")
     sp = gen.Space("cells", {"api": ["reduce", "reduce", "scan", "xarray"], "func": REDUCTIONS + ["nancumsum", "ffill", "bfill"],
                              "method": [None, "map-reduce", "cohorts", "blockwise"], "engine": [None, "numpy", "flox", "numbagg"], "reindex": [None, True, False],
-                             "by_dask": [False, True], "expected": [False, True], "layout": range(len(LAYOUTS))}, build)
+                             "by_dask": [False, True], "expected": [False, True], "layout": range(len(LAYOUTS)),
+                             # labels found at compute time with sort=False and a min_count that masks some groups
+                             "variant": [None, None, "sort_false_min_count"]}, build)
     cases = sp.sample(ctx.rng, 2500 if ctx.tier == "quick" else 40000)
+    # every scan cell (few) is visited whatever the sample
+    scans = gen.Space("scans", {"api": ["scan"], "func": ["nancumsum", "ffill", "bfill"], "method": [None], "engine": [None], "reindex": [None],
+                                "by_dask": [False, True], "expected": [False], "layout": range(len(LAYOUTS))}, build)
+    have = {str(c) for c in cases}
+    cases += [c for c in scans.all() if str(c) not in have]
     ctx.cov["space"] = {"cells": sp.size, "visited": len(cases)}
     recs = pmap("harness.drivers.c12", "run_lazy_case", cases)
     errs = harness_errors(recs)
@@ -147,7 +160,7 @@ def run(ctx):
     accepted = 0
     for rec in recs:
         ctx.cov["evaluations"] += 1
-        brief = {k: rec.get(k) for k in ("api", "func", "method", "engine", "reindex", "by_dask", "expected", "codes", "chunks", "exc", "msg")}
+        brief = {k: rec.get(k) for k in ("api", "func", "method", "engine", "reindex", "by_dask", "expected", "codes", "chunks", "variant", "exc", "msg")}
         evs = rec.get("events", [])
         if "exc" in rec:
             refused_in_call = not any(e["ev"] == "return" for e in evs)
@@ -172,6 +185,8 @@ def run(ctx):
         if rec["api"] == "reduce" and rec["by_dask"] and not rec["expected"] and "out" in rec:
             r = {"func": rec["func"], "vals": rec["vals"], "codes": rec["codes"], "groups": rec["groups"], "out": rec["out"], "sort": True,
                  "ddof": 0, "q": [1, 2]}
+            if rec.get("variant") == "sort_false_min_count":
+                r.update(sort=False, min_count=2, fill=[-1, 1] if "arg" in rec["func"] else [0, 0], chunks=rec["chunks"])
             red_owner[len(red)] = brief
             red.append(redcase.tlc_record(r, len(red)))
     if not lines:
@@ -202,7 +217,7 @@ def run(ctx):
 
 
 def replay(ctx, payload):
-    case = {k: v for k, v in payload["case"].items() if k in ("api", "func", "method", "engine", "reindex", "by_dask", "expected", "codes", "chunks")}
+    case = {k: v for k, v in payload["case"].items() if k in ("api", "func", "method", "engine", "reindex", "by_dask", "expected", "codes", "chunks", "variant")}
     rec = run_lazy_case(case)
     print({k: v for k, v in rec.items() if k not in ("vals",)})
     return 0
